@@ -38,7 +38,7 @@ impl<'a> Bytes<'a> {
         (0..n).map(|_| c[self.u8() as usize % c.len()]).collect()
     }
     pub fn codec(&mut self) -> CodecId {
-        ALL_CODECS[self.u8() as usize % 7]
+        ALL_CODECS[self.u8() as usize % ALL_CODECS.len()]
     }
     pub fn len(&mut self, max: usize) -> usize {
         let b = self.u8() as usize;
